@@ -4607,10 +4607,25 @@ class DecAffine(Affine):
                 values.append(output)
 
             sw = any(arg.sw for arg in args)
-            if ns > 1 and (len(self.event_adapt) > 1 or sw):
+            if ns > 1 and (self._is_event_wise() or sw):
                 return pd.Series(values, index=self.dro_model.series_scen.index)
             else:
                 return values[0]
+
+    def _is_event_wise(self):
+        # The event partition recorded when the expression was built may be
+        # out of date (adaptation declared afterwards): look at the decision
+        # variables the expression actually refers to.
+        if len(self.event_adapt) > 1:
+            return True
+        if self.ctype == 'E':
+            return False
+        cols = np.unique(self.linear.nonzero()[1])
+        for dvar in self.dro_model.dec_vars:
+            if len(dvar.event_adapt) > 1:
+                if ((cols >= dvar.first) & (cols < dvar.last)).any():
+                    return True
+        return False
 
 
 def no_expectation(*exprs):
@@ -4693,6 +4708,9 @@ class DecConvex(Convex):
                 values_out = self.affine_out()
             else:
                 values_out = self.affine_out
+            event_wise = (len(self.event_adapt) > 1 or
+                          isinstance(values_in, pd.Series) or
+                          isinstance(values_out, pd.Series))
             if not isinstance(values_in, pd.Series):
                 if isinstance(values_out, pd.Series):
                     values_in = pd.Series([values_in] * len(values_out),
@@ -4752,7 +4770,7 @@ class DecConvex(Convex):
                 else:
                     raise ValueError('Unsupported convex/concave expression.')
 
-            if len(output) > 1 and len(self.event_adapt) > 1:
+            if len(output) > 1 and event_wise:
                 output = pd.Series(output, index=values_in.index)
             else:
                 output = output[0]
